@@ -114,8 +114,10 @@ def lock_static(job, ev, ctx):
         ev['distinct_nontrivial'] += nlock
         ev['samples'].append({'static': 'every path of %d functions with lock activity (of %d analysed)' % (nlock, nfun),
                               'lock_order_edges': ['%s -> %s (%s)' % (a, b, where[(a, b)]) for a, b in edges][:12]})
-        if job.get('want') in (None, 'bugs'):
+        if job.get('want') in (None, 'bugs', 'order'):
             for f, file, line, bad in bugs:
+                if job.get('want') == 'order' and not bad.startswith('block-holding'):
+                    continue    # (C11 reports what makes concurrent callers wait for each other; the rest is C12's)
                 viol.append({'kind': 'lockbug', 'key': 'lockbug %s %s' % (f, bad),
                              'what': '%s (%s:%s): %s - a path through this function violates the lock discipline' % (f, file, line, bad)})
         if job.get('want') in (None, 'order'):
